@@ -77,6 +77,19 @@ macro_rules! mk_fields {
     (I24, $o:expr) => { { let i = $o.unpack(); ([u32::from(i), 0, 0, 0], 1usize) } };
 }
 
+/// the same argument values read through the per-field accessors ra() / rb() / rc() / rd() / imm06() / imm12() / imm18() / imm24()
+macro_rules! mk_acc {
+    (NONE, $o:expr) => { { let _ = $o; ([0u32; 4], 0usize) } };
+    (R, $o:expr) => { ([r32($o.ra()), 0, 0, 0], 1usize) };
+    (RR, $o:expr) => { ([r32($o.ra()), r32($o.rb()), 0, 0], 2usize) };
+    (RRR, $o:expr) => { ([r32($o.ra()), r32($o.rb()), r32($o.rc()), 0], 3usize) };
+    (RRRR, $o:expr) => { ([r32($o.ra()), r32($o.rb()), r32($o.rc()), r32($o.rd())], 4usize) };
+    (RRRI6, $o:expr) => { ([r32($o.ra()), r32($o.rb()), r32($o.rc()), u8::from($o.imm06()) as u32], 4usize) };
+    (RRI12, $o:expr) => { ([r32($o.ra()), r32($o.rb()), u16::from($o.imm12()) as u32, 0], 3usize) };
+    (RI18, $o:expr) => { ([r32($o.ra()), u32::from($o.imm18()), 0, 0], 2usize) };
+    (I24, $o:expr) => { ([u32::from($o.imm24()), 0, 0, 0], 1usize) };
+}
+
 struct OpFns {
     name: &'static str,
     arity: &'static str,
@@ -102,6 +115,14 @@ macro_rules! ops {
         fn fields_of(i: Instruction) -> Option<([u32; 4], usize)> {
             match i {
                 $( Instruction::$Op(o) => Some(mk_fields!($S, o)), )*
+                _ => None,
+            }
+        }
+        /// the per-field accessors of a decoded instruction as plain integers
+        #[allow(unreachable_patterns)]
+        fn acc_of(i: Instruction) -> Option<([u32; 4], usize)> {
+            match i {
+                $( Instruction::$Op(o) => Some(mk_acc!($S, o)), )*
                 _ => None,
             }
         }
@@ -572,6 +593,8 @@ fn check_word(w: u32, rows: &[Row], bb: &[Option<&'static OpFns>; 256], t: &mut 
         None => t.miss("unsupported-variant-in-harness", w, json!(row.m), json!(null)),
         Some((f, n)) => if n != row.n || f[..n] != exp[..n] { t.miss("arguments", w, jarr(&exp[..row.n]), jarr(&f[..n])); },
     }
+    // ... and the per-field accessors give the same values as unpack()
+    if let Some((f, n)) = acc_of(i) { if n != row.n || f[..n] != exp[..n] { t.miss("field-accessors", w, jarr(&exp[..row.n]), jarr(&f[..n])); } }
     let regs = i.reg_ids();
     let mut nr = 0;
     for k in 0..row.n { if row.isreg[k] { if regs[nr].map(r32) != Some(exp[k]) { t.miss("reg-ids", w, jarr(&exp[..row.n]), json!(format!("{:?}", regs))); break; } nr += 1; } }
